@@ -20,6 +20,11 @@ def run(ctx):
     readers.run_sessions(ctx, random.Random(ctx.seed + 91), 300 if ctx.quick else 6000, [3, 3, 2], 'rd', force_logs=True)
     ctx.expect_ok(run_tlc('Container_MC', MC_CFG % ((2, 1) if ctx.quick else (2, 2)), ctx.workdir, name='container',
                           timeout=7200))
+    # negative control: the reader that drops a chunk's first record when it equals the record before it must be REJECTED
+    # (the model does contain equal records next to a chunk boundary - YieldsExact is not vacuous about them)
+    ctx.expect_violation(run_tlc('Container_MC', MC_CFG.replace('DedupChunkHead = FALSE', 'DedupChunkHead = TRUE') % (1, 0),
+                                 ctx.workdir, name='neg_dedup_chunk_head', timeout=900, allow_error=True),
+                         'reader that reports an "overlapping" record at a chunk boundary once')
     n = 500 if ctx.quick else 10000
     obs, files_of = build_obs(ctx, rnd, n, [3, 3, 3, 2], ['nz'])
     nv, rej, _ = validate_observations('Container_Val', obs, ctx.workdir, name='c03val', timeout=3000)
